@@ -298,6 +298,38 @@ def rule_propagation(ctx):
     ctx.holds('R5', 'DatasetAxes.__setitem__: old name remembered, new Axis object assigned to every variable having it')
 
 
+def rule_axis_eq(ctx, rid='R3'):
+    """Axis.__eq__ is the test behind "labels disagree -> ValueError" in Dataset.__setitem__ and behind align()'s "nothing to do" skip: it must be exact -
+    same type, size, name and element-wise equal labels - with no tolerance."""
+    from ..rules import truth
+    fi = ctx.fn('dimarray.core.axes.Axis.__eq__')
+    OTHER = P_(fi.params[1])
+    ev = run(ctx, fi, mode='join')
+    bad = None
+    exact = False
+    for p in ev.paths:
+        terms = [p.value] + [a for a, _ in p.guards]
+        for t in terms:
+            for x in T.subterms(t):
+                if x[0] == 'call' and (T.dotted(x[1]) or '').split('.')[-1] in ('allclose', 'isclose', 'array_equiv', 'around', 'round'):
+                    bad = x
+                if x[0] == 'call' and T.dotted(x[1]) in ('np.all', 'np.array_equal') and x[2]:
+                    a = x[2][0]
+                    if T.dotted(x[1]) == 'np.array_equal' or (a[0] == 'cmp' and a[1] == '==' and T.contains(a, SELF) and T.contains(a, OTHER) and 'values' in T.show(a)):
+                        exact = True
+    if bad is not None:
+        ctx.violated(rid, fi, 'Axis.__eq__ with a tolerance', 'Axis.__eq__ compares labels with %s: float labels that differ by less than the tolerance (1800 s on epoch seconds, 1e-10 on small '
+                     'values) compare equal, so Dataset.__setitem__ accepts an array whose labels disagree and align() skips its reindexing' % T.show(bad)[:60], node=fi.node)
+    elif not exact:
+        ctx.undecide(rid, 'Axis.__eq__: no element-wise comparison of the labels recognised')
+    else:
+        names = any(x[0] == 'cmp' and x[1] == '==' and 'name' in T.show(x) for p in ev.paths for t in [p.value] + [a for a, _ in p.guards] for x in T.subterms(t))
+        if names:
+            ctx.holds(rid, 'Axis.__eq__: exact element-wise label equality, same name')
+        else:
+            ctx.violated(rid, fi, 'Axis.__eq__ ignores the name', 'two axes with equal labels but different names must not compare equal', node=fi.node)
+
+
 def rule_rename_loop(ctx, rid, fi, label, bind=None):
     """A bulk rename must fetch every Axis object before it renames any: a store `X.axes[<old name>].name = new` inside the loop over the
     mapping looks the next axis up *by name* after earlier renames, so swaps and chains ({x: y, y: x}) hit the axis that was just renamed."""
@@ -415,6 +447,12 @@ def check(ctx):
     rule_propagation(ctx)
     rule_renames(ctx)
     rule_init(ctx)
-    ctx.not_decided += ['that `newaxis == existing_axis` is the right equality for every label kind', 'inherited dict mutators (update/pop/...) are outside the operation list']
+    rule_axis_eq(ctx, 'R3')
+    # Dataset construction aligns differing inputs first: the reindex loop of align() (shared with C06)
+    from . import c06
+    from ..report import Renamed
+    ctx.rule('R7', 'align() reindex loop used by Dataset construction (shared with C06)', 3)
+    c06.rule_align(ctx, rid='R7')
+    ctx.not_decided += ['inherited dict mutators (update/pop/...) are outside the operation list']
     ctx.trusted += ['copy.copy / copy.deepcopy semantics', 'list.append / list.remove']
     return EXPLANATION
